@@ -255,33 +255,48 @@ def ob_hash4(ctx, var):
     return ok('capacity hash = first four words of the permutation (%d state(s))' % S, sample=dict(function='hash', variant=var))
 
 # ---------------------------------------------------------------- C07: linear_hash
-def run_lh(ctx, var, L, xs=None, concrete=False):
+def run_lh(ctx, var, L, xs=None, concrete=False, place='disjoint'):
+    """place: 'disjoint' | 'inplace' (the digest is written over the first four input words) | 'tail' (over the last four input words).
+       Every path is explored (the code may test the alignment of its arguments); returns the list of (xs, outs, inp) per path, or one triple"""
     cfg = cfg_of(var); k = 2 if var == 'avx512' else 1
     w = uworld(ctx, cfg) if not concrete else core.world(ctx.bdir, mods(cfg))
     if concrete: w.reset(); w.hooks = dict(w.base_hooks)
     if xs is None: xs = [z3.Int('x%d' % i) for i in range(k * L)]
-    inp = Obj(8 * k * L, 'input', 8)
-    for i, x in enumerate(xs): inp.cells[i] = FV(x) if not concrete else x
-    out = Obj(32 * k, 'output', 8)
-    Interp(w).call(LH[var], [Ptr(out, 0), Ptr(inp, 0), L])
-    return xs, [out.cells.get(i) for i in range(4 * k)], inp
+    def go(it):
+        nin = k * L if place == 'disjoint' else max(k * L, 4)
+        inp = Obj(8 * nin, 'input', 8)
+        for i, x in enumerate(xs): inp.cells[i] = FV(x) if not concrete else x
+        for i in range(len(xs), nin): inp.cells[i] = 0
+        if place == 'disjoint': out = Obj(32 * k, 'output', 8); outp = Ptr(out, 0); base = 0
+        else: out = inp; base = 0 if place == 'inplace' else max(L - 4, 0); outp = Ptr(inp, 8 * base)
+        it.call(LH[var], [outp, Ptr(inp, 0), L])
+        return xs, [out.cells.get(base + i) for i in range(4 * k)], inp
+    if concrete:
+        return go(Interp(w))
+    paths = explore(w, go, max_paths=16)
+    for p_ in paths:
+        if p_.status == 'violation': raise p_.result
+        if p_.status != 'ok': raise Unsupported('linear_hash path ends in %s' % (p_.result,))
+    return [p_.result for p_ in paths]
 
-def ob_lh(ctx, var, L):
+def ob_lh(ctx, var, L, place='disjoint'):
     k = 2 if var == 'avx512' else 1
-    try: xs, outs, inp = run_lh(ctx, var, L)
+    try: runs = run_lh(ctx, var, L, place=place)
     except Violation as e:
         return viol('linear_hash/%s/%s' % (var, e.kind), 'linear_hash%s(size=%d): %s (input object holds exactly %d words)' % ({'seq': '_seq', 'avx': '', 'avx512': '_avx512'}[var], L, e.msg, k * L), replay=dict(kind='lh', var=var, L=L, event=str(e)))
-    pairs = []
-    for j in range(k):
+    ptxt = {'disjoint': '', 'inplace': ' [digest written over the first four input words]', 'tail': ' [digest written over the last four input words]'}[place]
+    for (xs, outs, inp) in runs:
+      pairs = []
+      for j in range(k):
         ref = sponge(xs[j * L:(j + 1) * L])
         for i in range(4):
             o = outs[j * 4 + i]
-            if o is None: return viol('linear_hash/%s/unwritten' % var, 'linear_hash (%s, size %d): digest word %d not written' % (var, L, j * 4 + i), replay=dict(kind='lh', var=var, L=L, event='unwritten'))
+            if o is None: return viol('linear_hash/%s/unwritten' % var, 'linear_hash (%s, size %d)%s: digest word %d not written' % (var, L, ptxt, j * 4 + i), replay=dict(kind='lh', var=var, L=L, event='unwritten'))
             pairs.append((T_(o), ref[i]))
-    d = all_eq(pairs)
-    if d is not None: return confirm_lh(ctx, var, L, 'digest word %d differs from the rate-8 capacity-4 sponge' % d)
-    if any(not (isinstance(c, FV) and c.cls is xs[i]) for i, c in ((i, inp.cells.get(i)) for i in range(k * L))): return viol('linear_hash/%s/input-modified' % var, 'linear_hash (%s, size %d) modified its input' % (var, L), replay=dict(kind='lh', var=var, L=L, event='input modified'))
-    return ok('size %d: %d digest words = sponge (EUF over the permutation); reads inside the %d-word input' % (L, 4 * k, k * L), sample=dict(function='linear_hash', variant=var, size=L))
+      d = all_eq(pairs)
+      if d is not None: return confirm_lh(ctx, var, L, 'digest word %d differs from the rate-8 capacity-4 sponge%s' % (d, ptxt), place)
+      if place == 'disjoint' and any(not (isinstance(c, FV) and c.cls is xs[i]) for i, c in ((i, inp.cells.get(i)) for i in range(k * L))): return viol('linear_hash/%s/input-modified' % var, 'linear_hash (%s, size %d) modified its input' % (var, L), replay=dict(kind='lh', var=var, L=L, event='input modified'))
+    return ok('size %d%s: %d digest words = sponge (EUF over the permutation) on %d path(s); reads inside the %d-word input' % (L, ptxt, 4 * k, len(runs), k * L), sample=dict(function='linear_hash', variant=var, size=L, placement=place))
 
 def pysponge(K, xs):
     if len(xs) <= 4: return [x for x in xs] + [0] * (4 - len(xs))
@@ -290,14 +305,18 @@ def pysponge(K, xs):
         blk = list(xs[i:i + 8]); blk += [0] * (8 - len(blk)); cap = pyperm(K, blk + cap)[:4]; i += 8
     return cap
 
-def confirm_lh(ctx, var, L, text):
+def confirm_lh(ctx, var, L, text, place='disjoint'):
     cfg = cfg_of(var); k = 2 if var == 'avx512' else 1; rng = ctx.rng('lh'); w = core.world(ctx.bdir, mods(cfg)); K = consts(w)
     for trial in range(3):
         xs = [rng.getrandbits(64) % P for _ in range(k * L)] if trial else list(range(1, k * L + 1))
         f = core.nfn(ctx.bdir, cfg, LH[var])
         if f is not None:
-            ib = kern.u64buf(xs + [0]); ob_ = kern.u64buf([0] * (4 * k)); f(ctypes.byref(ob_), ctypes.byref(ib), ctypes.c_uint64(L)); got = list(ob_)
-        else: got = run_lh(ctx, var, L, xs, concrete=True)[1]
+            ib = kern.u64buf(xs + [0] * 5)
+            if place == 'disjoint': ob_ = kern.u64buf([0] * (4 * k)); f(ctypes.byref(ob_), ctypes.byref(ib), ctypes.c_uint64(L)); got = list(ob_)
+            else:
+                base = 0 if place == 'inplace' else max(L - 4, 0)
+                f(ctypes.byref(ib, 8 * base), ctypes.byref(ib), ctypes.c_uint64(L)); got = [ib[base + i] for i in range(4 * k)]
+        else: got = run_lh(ctx, var, L, xs, concrete=True, place=place)[1]
         for j in range(k):
             exp = pysponge(K, xs[j * L:(j + 1) * L])
             if [g % P for g in got[4 * j:4 * j + 4]] != [e % P for e in exp]:
